@@ -4,6 +4,10 @@ import (
 	"crypto/sha256"
 	"encoding/binary"
 	"encoding/hex"
+	"math/big"
+
+	"verif/ref/ec"
+	"verif/ref/sighash"
 
 	"verif/ref/consensus"
 	"verif/ref/wire"
@@ -68,10 +72,101 @@ func P2WSH(inner []byte) []byte {
 
 // Recipe says how an output script built here can be spent.
 type Recipe struct {
-	Kind  string // "true", "puzzle", "sigops", "opreturn", "p2sh", "p2wsh", "raw"
+	Kind  string // "true", "puzzle", "dead", "opreturn", "p2sh", "p2wsh", "p2pkh", "p2wpkh", "p2sh-p2wpkh", "p2tr"
 	N     int64  // puzzle number
 	Inner []byte // redeem / witness script
 	In    *Recipe
+	Key   int // index into the key pool for the signed kinds
+}
+
+// Key pool: secret k+1 multiplied by a fixed odd constant, so that keys are not tiny but reproducible.
+func Secret(k int) []byte {
+	v := new(big.Int).Mul(big.NewInt(int64(k)+1), new(big.Int).SetBytes([]byte("gocoin-verif-key-pool-constant!!")))
+	v.Mod(v, new(big.Int).Sub(ec.N, big.NewInt(1)))
+	v.Add(v, big.NewInt(1))
+	return ec.Bytes32(v)
+}
+
+// PubKey is the compressed public key of pool key k.
+func PubKey(k int) []byte { return ec.SerializeCompressed(ec.BaseMul(new(big.Int).SetBytes(Secret(k)))) }
+
+func p2pkhScript(h []byte) []byte {
+	return append(append([]byte{0x76, 0xa9, 0x14}, h...), 0x88, 0xac)
+}
+
+// P2PKH / P2WPKH / P2SH-P2WPKH / P2TR (key path only, BIP86-style tweak with an empty merkle root).
+func (b *Builder) P2PKH(k int) []byte {
+	return b.reg(p2pkhScript(hash160(PubKey(k))), &Recipe{Kind: "p2pkh", Key: k})
+}
+func (b *Builder) P2WPKH(k int) []byte {
+	return b.reg(append([]byte{0x00, 0x14}, hash160(PubKey(k))...), &Recipe{Kind: "p2wpkh", Key: k})
+}
+func (b *Builder) P2SHP2WPKH(k int) []byte {
+	redeem := append([]byte{0x00, 0x14}, hash160(PubKey(k))...)
+	return b.reg(P2SH(redeem), &Recipe{Kind: "p2sh-p2wpkh", Key: k, Inner: redeem})
+}
+func (b *Builder) P2TR(k int) []byte {
+	x, _ := ec.XOnlyPubKey(Secret(k))
+	t := sighash.TapTweakHash(x, nil)
+	q, _, ok := ec.TweakAdd(x, t[:])
+	if !ok {
+		panic("tweak failed")
+	}
+	return b.reg(append([]byte{0x51, 0x20}, q...), &Recipe{Kind: "p2tr", Key: k})
+}
+
+// Signed reports whether spending pk needs a signature over the finished transaction.
+func (b *Builder) Signed(pk []byte) bool {
+	r := b.Recipes[string(pk)]
+	return r != nil && (r.Kind == "p2pkh" || r.Kind == "p2wpkh" || r.Kind == "p2sh-p2wpkh" || r.Kind == "p2tr")
+}
+
+// SpendSigned signs input idx of the finished transaction (all inputs and outputs in place; spent = the
+// outputs spent by all inputs).  valid=false corrupts the signature.
+func (b *Builder) SpendSigned(tx *wire.Tx, idx int, spent []wire.TxOut, valid bool) bool {
+	pk := spent[idx].PkScript
+	r := b.Recipes[string(pk)]
+	if r == nil {
+		return false
+	}
+	in := &tx.In[idx]
+	in.ScriptSig, in.Witness = nil, nil
+	sec, pub := Secret(r.Key), PubKey(r.Key)
+	ecdsa := func(digest [32]byte) []byte {
+		rr, ss, _ := ec.SignRFC6979(sec, digest[:])
+		sig := append(ec.EncodeDER(rr, ss), 0x01)
+		if !valid {
+			sig[len(sig)-2] ^= 0x01
+		}
+		return sig
+	}
+	switch r.Kind {
+	case "p2pkh":
+		sig := ecdsa(sighash.Legacy(tx, idx, pk, 1))
+		in.ScriptSig = append(Push(sig), Push(pub)...)
+	case "p2wpkh":
+		sig := ecdsa(sighash.BIP143(tx, idx, p2pkhScript(hash160(pub)), spent[idx].Value, 1))
+		in.Witness = [][]byte{sig, pub}
+	case "p2sh-p2wpkh":
+		in.ScriptSig = Push(r.Inner)
+		sig := ecdsa(sighash.BIP143(tx, idx, p2pkhScript(hash160(pub)), spent[idx].Value, 1))
+		in.Witness = [][]byte{sig, pub}
+	case "p2tr":
+		x, _ := ec.XOnlyPubKey(sec)
+		t := sighash.TapTweakHash(x, nil)
+		d, ok := sighash.BIP341(tx, idx, spent, 0, 0, nil, nil, 0)
+		if !ok {
+			return false
+		}
+		sig := ec.SchnorrSign(ec.TweakSecret(sec, t[:]), d[:], make([]byte, 32))
+		if !valid {
+			sig[40] ^= 0x01
+		}
+		in.Witness = [][]byte{sig}
+	default:
+		return false
+	}
+	return true
 }
 
 // Builder remembers the recipes of the scripts it produced and the verdict of the spends it built.
@@ -79,10 +174,12 @@ type Builder struct {
 	Recipes map[string]*Recipe
 	// Verdict of (txid, input index) for the spends built here; consulted by the by-construction verifier.
 	Valid map[[36]byte]bool
+	// Loose marks inputs whose by-construction verdict is only a guess (hand-made violating transactions)
+	Loose map[[36]byte]bool
 }
 
 func NewBuilder() *Builder {
-	return &Builder{Recipes: map[string]*Recipe{}, Valid: map[[36]byte]bool{}}
+	return &Builder{Recipes: map[string]*Recipe{}, Valid: map[[36]byte]bool{}, Loose: map[[36]byte]bool{}}
 }
 
 func (b *Builder) reg(script []byte, r *Recipe) []byte {
@@ -150,6 +247,9 @@ func (b *Builder) Spend(tx *wire.Tx, idx int, pk []byte, valid bool) (ok bool) {
 	r := b.Recipes[string(pk)]
 	if r == nil {
 		return false
+	}
+	if b.Signed(pk) {
+		return true // filled in by SpendSigned once the transaction is complete
 	}
 	var items [][]byte // stack items for the innermost script, then wrappers
 	var breakable func(r *Recipe) bool
@@ -226,12 +326,27 @@ func (b *Builder) Spendable(pk []byte) bool {
 		return false
 	}
 	switch r.Kind {
-	case "true", "puzzle":
+	case "true", "puzzle", "p2pkh", "p2wpkh", "p2sh-p2wpkh", "p2tr":
 		return true
 	case "p2sh", "p2wsh":
 		return r.In != nil && (r.In.Kind == "true" || r.In.Kind == "puzzle")
 	}
 	return false
+}
+
+// NeedsWitness reports whether pk can only be spent with segwit (resp. taproot) active.
+func (b *Builder) NeedsWitness(pk []byte) (segwit, taproot bool) {
+	r := b.Recipes[string(pk)]
+	if r == nil {
+		return
+	}
+	switch r.Kind {
+	case "p2wsh", "p2wpkh", "p2sh-p2wpkh":
+		return true, false
+	case "p2tr":
+		return true, true
+	}
+	return
 }
 
 // Breakable reports whether an invalid spend can be built for pk.
@@ -240,7 +355,7 @@ func (b *Builder) Breakable(pk []byte) bool {
 	if r == nil {
 		return false
 	}
-	if r.Kind == "puzzle" {
+	if r.Kind == "puzzle" || b.Signed(pk) {
 		return true
 	}
 	return (r.Kind == "p2sh" || r.Kind == "p2wsh") && r.In != nil && r.In.Kind == "puzzle"
